@@ -72,6 +72,11 @@ def run_cli(smt2: str, timeout_s: int, which=None):
             pass
 
 
+# wall-clock budget of the in-process attempts: obligations of the unchanged tree need well under 2.5 s on an idle machine;
+# the margin is for a machine whose 16 cores are all busy (a verdict must not flip to `unknown` under load)
+IN_PROCESS_MS = 8000
+
+
 def _has_quantifier(x):
     todo, seen = [x], set()
     while todo:
@@ -104,14 +109,14 @@ def check(pc, goal, timeout_ms=10000, portfolio=True, want_model=False):
     ground = [h for h in pc if not _has_quantifier(h)]
     if len(ground) != len(pc):
         s0 = z3.Solver()
-        s0.set("timeout", min(timeout_ms, 2500))
+        s0.set("timeout", min(timeout_ms, IN_PROCESS_MS))
         s0.add(*ground)
         s0.add(z3.Not(goal))
         if s0.check() == z3.unsat:
             return "unsat", "z3py-%s(qf-subset)" % z3.get_version_string(), time.time() - t0, None
     s = z3.Solver()
     # quick in-process attempt first; hard queries go to the concurrent CLI portfolio with the full budget
-    s.set("timeout", min(timeout_ms, 2500) if portfolio else timeout_ms)
+    s.set("timeout", min(timeout_ms, IN_PROCESS_MS) if portfolio else timeout_ms)
     s.add(*pc)
     s.add(z3.Not(goal))
     r = s.check()
